@@ -54,6 +54,41 @@ def exactObjB (st : StructTy) (props : List (String × SProp)) : Bool :=
     | none => false
 
 
+/-- a schema that denotes a struct-mapped object: the object itself, or scopes around it -/
+def objLikeS : Nat → STy → Bool
+  | 0, _ => false
+  | _ + 1, .obj _ _ _ _ => true
+  | n + 1, .scope t => objLikeS n t
+  | _ + 1, _ => false
+
+/-- the property table of an object-like schema -/
+def memberProps : Nat → STy → Option (List (String × SProp))
+  | 0, _ => none
+  | _ + 1, .obj _ _ _ props => some props
+  | n + 1, .scope t => memberProps n t
+  | _ + 1, _ => none
+
+/-- a discriminator property has a type of the one-of's key kind (string / string enum for string
+    keys, int / int enum for int keys): `validateSubtypeDiscriminatorInlineFields` compares the
+    reflected kinds -/
+def discLeafOK (intKey : Bool) : STy → Bool
+  | .leaf (.str _ _ _) | .leaf (.enumStr _) => !intKey
+  | .leaf (.int _ _ _) | .leaf (.enumInt _ _) => intKey
+  | _ => false
+
+/-- what `validateSubtypeDiscriminatorInlineFields` asks of a member (it panics otherwise, when
+    the one-of sits in a scope): inlined - the member declares the discriminator with a type of the
+    key kind; not inlined - the member does not declare it -/
+def discOK (n : Nat) (intKey : Bool) (disc : String) (inlined : Bool) (mt : STy) : Bool :=
+  match memberProps n mt with
+  | none => false
+  | some ps =>
+    if inlined then
+      (match lookupS disc ps with
+       | some p => discLeafOK intKey p.ty
+       | none => false)
+    else !hasKey disc ps
+
 /-- fuelled executable check of `WFS` -/
 def wfSB : Nat → STy → Bool
   | 0, _ => false
@@ -63,6 +98,11 @@ def wfSB : Nat → STy → Bool
   | n + 1, .scope t => wfSB n t
   | n + 1, .obj _ st _ props =>
     wfObjB st props && props.all (fun kp => wfSB n kp.2.ty)
+  | n + 1, .oneOf intKey disc inlined members =>
+    -- members are struct-mapped objects, consistent about the discriminator; their keys are distinct
+    -- (a Go map) and so are their struct types (`findUnderlyingType` picks a member by type)
+    members.all (fun m => wfSB n m.2 && objLikeS n m.2 && discOK n intKey disc inlined m.2) &&
+    decide (members.map (·.1)).Nodup && decide (members.map fun m => reflTy m.2).Nodup
 
 
 /-- exact typing everywhere in the tree -/
@@ -73,6 +113,7 @@ def exactSB : Nat → STy → Bool
   | n + 1, .map _ v _ _ => exactSB n v
   | n + 1, .scope t => exactSB n t
   | n + 1, .obj _ st _ props => exactObjB st props && props.all (fun kp => exactSB n kp.2.ty)
+  | n + 1, .oneOf _ _ _ members => members.all (fun m => exactSB n m.2)
 
 end SM
 end Arca
